@@ -7,6 +7,7 @@ import NixModel.Lemmas.C18Shape
 import NixModel.Lemmas.C18Inside
 import NixModel.Lemmas.C18Total
 import NixModel.Lemmas.C18Names
+import NixModel.Lemmas.C18NoLoss
 
 /-!
 # C18 — format upgrade preserves content, is idempotent and resumable
@@ -296,6 +297,48 @@ theorem C18_failed_stays_old (lib : List Nat) (r : Nat) (f : File) (h : (upgrade
     (upToDate lib f = false → upToDate lib (upgrade lib r f).1 = false) :=
   ⟨failed_keeps_version h, fun hu => (upToDate_congr (failed_keeps_version h)).trans hu⟩
 
+/-- A failed upgrade is an interruption between two steps: the only step of a collected list that can fail is a
+property conversion, and it is refused before its first write. So what a failed upgrade leaves is what an
+interruption before the refused step leaves, and every further attempt gives the same file and the same outcome as
+the first, up to fresh ids and timestamps. For every file. -/
+theorem C18_failure_is_interruption (lib : List Nat) (r : Nat) (f : File) (hwf : WF f)
+    (h : (upgrade lib r f).2 ≠ none) :
+    ∃ k, k < (collect lib f).length ∧ interrupt lib r k f = ((upgrade lib r f).1, none) ∧
+      ∀ r2 r3, (upgrade lib r2 (upgrade lib r f).1).1.erase = (upgrade lib r3 f).1.erase ∧
+        (upgrade lib r2 (upgrade lib r f).1).2 = (upgrade lib r3 f).2 := by
+  cases hu : upgrade lib r f with
+  | mk g e =>
+    cases e with
+    | none => rw [hu] at h; exact absurd rfl h
+    | some e =>
+      obtain ⟨k, hk, hi⟩ := failure_is_interruption _ f g e rfl hwf hu
+      refine ⟨k, hk, hi, fun r2 r3 => ?_⟩
+      have := C18_resumable lib r r2 r3 k f hwf (by rw [hi])
+      rw [hi] at this
+      exact this
+
+/-- No run loses a per-value extra. For every file whose datasets have names — no hypothesis on clashes: the files
+of the open finding included —, every list of steps (the collected one, any prefix, a stale one) and whether or
+not a step fails or is refused: a compound property of the original file is afterwards either still there exactly
+as it was, or converted, and then its dtype, values, unit, definition and every per-value uncertainty, reference,
+filename, encoder and checksum are retrievable. "Retrievable" as in `ContentPreserved`, read by someone who knows
+the names of the original file (`visible`): a dataset that already sat at a `<name>.<extra>` name is somebody
+else's. (Before the repair a9c126b this was false: `clash`.) -/
+theorem C18_no_extra_lost (lib : List Nat) (r : Nat) (f : File) (hwf : WF f) (hnamed : ∀ e ∈ f.props, e.1 ≠ [])
+    (ss : List Step) (p : Path) (o : OldProp) (hp : (p, PObj.old o) ∈ f.props) :
+    (p, PObj.old o) ∈ (runSteps lib r f ss).1.props ∨
+    (∃ n, lookup (runSteps lib r f ss).1.props p = some (.new n) ∧ (PObj.new n).view = (PObj.old o).view ∧
+      extraUnc (visible f.props (runSteps lib r f ss).1.props p) p = some (o.rows.map (·.uncertainty)) ∧
+      extraStr (visible f.props (runSteps lib r f ss).1.props p) p ".reference" = some (o.rows.map (·.reference)) ∧
+      extraStr (visible f.props (runSteps lib r f ss).1.props p) p ".filename" = some (o.rows.map (·.filename)) ∧
+      extraStr (visible f.props (runSteps lib r f ss).1.props p) p ".encoder" = some (o.rows.map (·.encoder)) ∧
+      extraStr (visible f.props (runSteps lib r f ss).1.props p) p ".checksum" = some (o.rows.map (·.checksum))) := by
+  have hinv := inv2_runSteps (lib := lib) (r := r) hwf.1 hnamed ss f (Inv2.refl r hwf.1)
+  rcases hinv.oldOrDone p o hp with h | h
+  · exact Or.inl h
+  · obtain ⟨h1, h2, h3, h4, h5, h6⟩ := done2_decode hinv.nodup (hnamed _ hp) h
+    exact Or.inr ⟨mainOf r o, h1, view_mainOf r o, h2, h3, h4, h5, h6⟩
+
 /-- a property `a` with a reference text next to a property named `a.reference` -/
 def clash : File :=
   { version := [1, 1, 0], id := .absent,
@@ -325,6 +368,23 @@ theorem C18_content_counterexample : ¬ C18_content := by
 
 example : ¬ Clean clash := by decide +kernel
 example : ¬ NoNameTaken clash := by decide +kernel
+
+/-- `a` without reference texts next to a foreign text property named `a.reference`: not `NoNameTaken`, yet the
+upgrade succeeds and `C18_no_extra_lost` applies; the reader has to know that `a.reference` was there before -/
+def foreign : File :=
+  { version := [1, 1, 0], id := .absent,
+    props := [(["s", "properties", "a"], .old ⟨"int64", [⟨.int 1, .fin 0, "", "", "", ""⟩], none, none⟩),
+              (["s", "properties", "a.reference"], .old ⟨"str", [⟨.str "zzz", .fin 0, "", "", "", ""⟩], none, none⟩)],
+    arrays := [], other := "" }
+
+example : ¬ NoNameTaken foreign ∧ WF foreign ∧ (∀ e ∈ foreign.props, e.1 ≠ []) := by decide +kernel
+
+example :
+    let g := (runSteps [1, 2, 1] 1 foreign
+      [.addId, .prop ["s", "properties", "a"], .prop ["s", "properties", "a.reference"], .bump]).1.props
+    extraStr (visible foreign.props g ["s", "properties", "a"]) ["s", "properties", "a"] ".reference" = some [""] ∧
+    extraStr g ["s", "properties", "a"] ".reference" = some ["zzz"] := by
+  decide +kernel
 
 /-- non-vacuity of `C18_failed_stays_old` / `C18_values_never_lost`: on `clash` the upgrade fails, the value of `a`
 is still read, its reference text is not -/
